@@ -284,7 +284,18 @@ def write_replay(ctx, name, payload):
     return os.path.relpath(p, ROOT)
 
 
-_COUNT_KEYS = ("cases", "rows", "histories", "ops", "meshes", "batches", "instances", "lines", "segfacet_rows", "selfint_rows")
+_COUNT_KEYS = ("cases", "rows", "histories", "ops", "meshes", "batches", "instances", "lines", "segfacet_rows", "selfint_rows",
+               "soups", "names")  # audit2: `soups` (C13 mesh_unique) and `names` (C18 label) had no recognised count field
+
+
+def _own_counts(v):
+    """(has_count_field, total) over the top level of one statistics dict only"""
+    has, tot = False, 0
+    if isinstance(v, dict):
+        for k, x in v.items():
+            if k in _COUNT_KEYS and isinstance(x, int) and not isinstance(x, bool):
+                has, tot = True, tot + x
+    return has, tot
 
 
 def _stream_counts(v, depth=0):
@@ -302,7 +313,10 @@ def _stream_counts(v, depth=0):
 
 def check_streams(ctx):
     """a check must not pass without having compared anything: with a built driver at least one correspondence stream
-    must have run, and no stream may report zero compared items"""
+    must have run, and no stream may report zero compared items.
+    audit2: (a) a dict OF streams (C18: {"forest": …, "label": …, "forestattr": …}, no count field of its own) is checked
+    per member — before, one busy member hid an empty one because the totals were added up; (b) a statistics dict in
+    which no count field is recognised at all is reported instead of being passed unexamined."""
     if not getattr(ctx, "driver_ok", False):
         return
     streams = {k: v for k, v in ctx.cov.items() if k.startswith("correspondence") and not k.endswith("samples")}
@@ -315,6 +329,16 @@ def check_streams(ctx):
             has, tot = _stream_counts(v)
             if has and tot == 0:
                 ctx.broken.append({"kind": "empty-stream", "name": k, "detail": "stream compared zero items"})
+            own_has, _ = _own_counts(v)
+            if not own_has:
+                members = {kk: _own_counts(vv) for kk, vv in v.items() if isinstance(vv, dict)}
+                counted = {kk: c for kk, c in members.items() if c[0]}
+                for kk, (_, t) in counted.items():
+                    if t == 0:
+                        ctx.broken.append({"kind": "empty-stream", "name": f"{k}/{kk}", "detail": "member stream compared zero items"})
+                if not counted and v:
+                    ctx.broken.append({"kind": "uncounted-stream", "name": k,
+                                       "detail": "no recognised count field (" + ", ".join(_COUNT_KEYS) + "): cannot tell whether anything was compared"})
 
 
 def finish(ctx, level_text=""):
